@@ -59,11 +59,16 @@ def geom(name, tree='T1', nfree=6, window_mid=False, bounds=None, info=None):
         'G16f': dict(fat32=False, clusters=4100, bpc=2, nfats=2, root_entries=32, lba=8, slot=0, ptype=6),
         'G32f': dict(fat32=True, clusters=65600, bpc=2, nfats=2, lba=8, slot=0, ptype=0x0C, reserved=32),
         'G32e': dict(fat32=True, clusters=70000, bpc=1, nfats=1, lba=8, slot=0, ptype=0x0C, reserved=32),
+        # three FAT copies (legal, rare): the data area starts behind ALL of them
+        'G16t': dict(fat32=False, clusters=4100, bpc=1, nfats=3, root_entries=32, lba=8, slot=0, ptype=6),
+        'G32t': dict(fat32=True, clusters=65600, bpc=2, nfats=4, lba=8, slot=0, ptype=0x0C, reserved=32),
     }[name]
     v = dict(P)
     # volume serial numbers: any 32 bits (on FAT16 they sit where FAT32 keeps its FAT-mirroring flags)
     v['serial'] = {'G16a': 0x00800000, 'G16b': 0xFFFFFFFF, 'G16c': 0x00810000, 'G16d': 0xA5A5A5A5, 'G16e': 0x80808080, 'G16f': 0x00008100,
                    'G16g': 0x00008000, 'G16h': 0x0F0F8F0F, 'G32a': 0xFFFFFFFF, 'G32b': 0x80000001}.get(name, 0x12345678)
+    if v['fat32']:
+        v['ext_flags'] = {'G32a': 0x0081, 'G32c': 0x0080, 'G32f': 0x0001, 'G32h': 0x008F, 'G32t': 0x0082}.get(name, 0)
     n = v['clusters']
     bpc = v['bpc']
     upc = bpc * upb
@@ -153,7 +158,7 @@ def scripted(big=False):
 
     # S1: the regression shapes of C01 on several geometries
     # (G16e: the largest FAT16 volume there is - its last clusters have the numbers 0xFFF0..0xFFF5, just below the bad-cluster mark)
-    for gname in ['G16a', 'G32a', 'G16c', 'G32b', 'G16g', 'G32h', 'G16e']:
+    for gname in ['G16a', 'G32a', 'G16c', 'G32b', 'G16g', 'G32h', 'G16e', 'G16t', 'G32t']:
         img = image_of(gname, tree='T1', nfree=8)
         upc = img[1]
         upb = len(img[2])
@@ -186,6 +191,10 @@ def scripted(big=False):
             O('read', f='f3', n=2, api='raii'), O('read', f='f3', n=upc, api='eio'), O('seek_start', f='f3', u=1, api='eio'),
             O('write', f='f3', n=1),                      # read-only handle rejects writes
             O('close_file', f='f3', api='raii'),
+            # an empty write to a file that owns no cluster yet, a lower cluster freed meanwhile, flush while still empty, then data
+            O('open_file', d='d0', name='ZERO.BIN', mode='Create', as_='fz'), O('write', f='fz', n=0), O('delete', d='d0', name='README.TXT'), O('flush', f='fz'),
+            O('write', f='fz', n=2), O('seek_start', f='fz', u=0), O('read', f='fz', n=2), O('flush', f='fz'), O('write', f='fz', n=upc), O('close_file', f='fz'),
+            O('open_file', d='d0', name='ZERO.BIN', mode='ReadOnly', as_='fz2'), O('read', f='fz2', n=upc + 2), O('close_file', f='fz2'),
             # an entry with something in bytes 20..22 (not part of a FAT16 cluster number): extended, truncated, deleted
             O('open_file', d='d0', name='VICTIM.DAT', mode='Append', as_='fv'), O('write', f='fv', n=1), O('close_file', f='fv'),
             O('open_file', d='d0', name='HIWORD.DAT', mode='Append', as_='fh'), O('write', f='fh', n=upc + 1), O('close_file', f='fh'),
@@ -234,7 +243,7 @@ def scripted(big=False):
         add('S2-' + gname, img, ops, upc)
 
     # S3: fill to exactly full and back, twice; delete of multi-cluster files; truncate 1/2/many
-    for gname, nfree in [('G16a', 4), ('G16b', 4), ('G32a', 5), ('G32b', 4), ('G16c', 3), ('G16g', 3), ('G32c', 3), ('G16e', 6)]:
+    for gname, nfree in [('G16a', 4), ('G16b', 4), ('G32a', 5), ('G32b', 4), ('G16c', 3), ('G16g', 3), ('G32c', 3), ('G16e', 6), ('G16t', 3), ('G32t', 3)]:
         img = image_of(gname, tree='T0', nfree=nfree, info=dict(info_free='unknown') if gname == 'G32b' else None)
         upc = img[1]
         ops = prologue()
@@ -280,6 +289,8 @@ def scripted(big=False):
                O('has_open')]
         ops += [O('open_root', v='v0', as_='r%d' % i) for i in range(D + 1)]
         ops += [O('has_open'), O('close_volume', v='v0')]
+        # (the directory table is full: change_dir needs a free slot for the moment both directories are open)
+        ops += [O('change_dir', d='r0', name='TEST'), O('change_dir', d='r0', name='README.TXT'), O('iterate', d='r0')]
         ops += [O('open_file', d='r0', name='F%d.TXT' % i, mode='Create', as_='f%d' % i) for i in range(F + 1)]
         ops += [O('iterate', d='r0', reent=True), O('iterate_lfn', d='r0', reent=True, buf=64), O('has_open')]
         ops += [O('mkdir', d='r0', name='MK')]
@@ -338,6 +349,14 @@ def scripted(big=False):
             ops += [O('find', d='d0', name=pre), O('open_file', d='d0', name=pre, mode='ReadOnly', as_='t%d' % k), O('open_dir', d='d0', name=pre, as_='dpre'), O('delete', d='d0', name=pre)]
             k += 1
         ops += [O('iterate', d='d0')]
+        # change_dir (the wrapper's in-place re-targeting of a directory handle): onto a file, a missing name, a label, a
+        # directory and back; a refusal leaves the handle where it was
+        ops += [O('open_dir', d='d0', name='SUB', as_='dc'), O('change_dir', d='dc', name='RO.TXT'), O('iterate', d='dc'), O('find', d='dc', name='RO.TXT'),
+                O('change_dir', d='dc', name='NOPE'), O('iterate', d='dc'), O('change_dir', d='dc', name='DEEP'), O('iterate', d='dc'), O('find', d='dc', name='X.BIN'),
+                O('change_dir', d='dc', name='X.BIN'), O('iterate', d='dc'), O('change_dir', d='dc', name='..'), O('iterate', d='dc'), O('change_dir', d='dc', name='.'),
+                O('change_dir', d='dc', name='..'), O('iterate', d='dc'), O('change_dir', d='dc', name='VERIFVOL'), O('change_dir', d='dc', name='EMPTY.DAT'), O('iterate', d='dc'),
+                O('find', d='dc', name='A.TXT'), O('open_file', d='dc', name='CD.TXT', mode='Create', as_='fcd'), O('write', f='fcd', n=1), O('close_file', f='fcd'),
+                O('close_dir', d='dc'), O('change_dir', d='dc', name='SUB')]
         ops += [O('open_file', d='d0', name='lower.txt', mode='Create', as_='lc'), O('close_file', f='lc'), O('find', d='d0', name='LOWER.TXT'),
                 O('open_file', d='d0', name='Lower.Txt', mode='Create', as_='lc2'),
                 O('mkdir', d='d0', name='SUB'), O('mkdir', d='d0', name='A.TXT'), O('mkdir', d='d0', name='newdir'),
@@ -633,6 +652,8 @@ def scripted(big=False):
                             O('mkdir', d='d0', name='D'), O('delete', d='d0', name='SAME.BIN'),
                             O('open_file', d='d0', name='SAME.BIN', mode='Create', as_='f7'), O('write', f='f7', n=upc + 1), O('close_file', f='f7')] + epilogue()
         add('S26-' + gname, img, ops, upc, clock='stalled')
+        # ... and on a clock that runs backwards (set back between the calls): every time stamp is earlier than the one before
+        add('S26b-' + gname, img, [dict(o) for o in ops], upc, clock='backwards')
 
     # S27: the largest FAT16 volume: an existing directory and an existing file whose chains run THROUGH the clusters
     # 0xFFF0 / 0xFFF1 (ordinary cluster numbers there, although they look like the reserved range of smaller volumes)
@@ -1061,6 +1082,21 @@ def fault_histories(seed, quick):
                             O('open_file', d='d0', name='Y.BIN', mode='Truncate', as_='f2'), O('write', f='f2', n=1), O('close_file', f='f2'),
                             O('open_file', d='d0', name='Y.BIN', mode='CreateOrTruncate', as_='f3')]
         add('FT-' + gname, img, ops)
+    # a volume whose close fails (the information sector cannot be written) is still open: opening it again, using it, closing it
+    for gname in ['G32a']:
+        img = image_of(gname, tree='T0', nfree=4)
+        upc = img[1]
+        ops = prologue() + [O('open_file', d='d0', name='A.BIN', mode='Create', as_='f0'), O('write', f='f0', n=upc + 1), O('close_file', f='f0'), O('close_dir', d='d0'),
+                            O('close_volume', v='v0'), O('open_volume', idx=0, as_='v1'), O('open_root', v='v1', as_='d1'), O('iterate', d='d1'),
+                            O('open_root', v='v0', as_='d2'), O('iterate', d='d2')]
+        add('FV-' + gname, img, ops, lim=(4, 4, 2))
+    # writes through the embedded-io traits that have to extend the chain (write, write_all semantics of the wrapper)
+    for gname in ['G16a', 'G32a']:
+        img = image_of(gname, tree='T0', nfree=4)
+        upc = img[1]
+        ops = prologue() + [O('open_file', d='d0', name='E.BIN', mode='Create', as_='f0'), O('write', f='f0', n=upc + 1, api='eio'), O('write', f='f0', n=upc, api='eio'),
+                            O('flush', f='f0', api='eio'), O('write', f='f0', n=3 * upc, api='eio')]
+        add('FE-' + gname, img, ops)
     # 128 blocks per cluster: faults inside the zeroing loop of a new directory cluster
     for gname in (['G16d'] if quick else ['G16d', 'G32d']):
         img = image_of(gname, tree='T0', nfree=3, bounds=[0])
